@@ -4,11 +4,34 @@ import os, sys, subprocess, multiprocessing, hashlib, json, time
 VERIF = os.path.dirname(os.path.dirname(os.path.abspath(__file__)))
 DRIVER = os.path.join(VERIF, 'build', 'driver')
 
+SCRIPT_TIMEOUT = int(os.environ.get('VERIF_SCRIPT_TIMEOUT', '60'))
+
+class _Timeout(Exception):
+    pass
+
+def _alarm(signum, frame):
+    raise _Timeout()
+
 def _impl_shard(scripts):
+    import signal, resource
     from harness import impl
+    try:
+        resource.setrlimit(resource.RLIMIT_AS, (6 << 30, 6 << 30))     # a runaway script must not take the machine down
+    except Exception:
+        pass
+    signal.signal(signal.SIGALRM, _alarm)
     out = []
     for sc in scripts:
-        out.append(impl.run_script(sc))
+        signal.alarm(SCRIPT_TIMEOUT)
+        try:
+            out.append(impl.run_script(sc))
+        except (_Timeout, MemoryError) as e:
+            # reported like an oracle failure of the script's first line
+            outs = [['ORACLE-FAIL harness [harness/%s] the implementation did not finish this script within %ds / 6 GB' % (
+                'timeout' if isinstance(e, _Timeout) else 'out-of-memory', SCRIPT_TIMEOUT)]] + [[] for _ in sc[1:]]
+            out.append((['echo ' + l for l in sc], outs))
+        finally:
+            signal.alarm(0)
     return out
 
 def run_impl(scripts, procs=None):
@@ -30,7 +53,7 @@ def _model_shard(ann_scripts):
     for sc in ann_scripts:
         inp.append('reset')
         for l in sc:
-            inp.append(l); inp.append('echo @@')
+            inp.append(l); inp.append('echo @@')      # l may hold several commands, one per line
     p = subprocess.run([DRIVER], input='\n'.join(inp) + '\n', capture_output=True, text=True)
     if p.returncode != 0:
         raise RuntimeError('model driver failed: rc=%d %s %s' % (p.returncode, p.stdout[-500:], p.stderr[-500:]))
@@ -44,6 +67,10 @@ def _model_shard(ann_scripts):
             while lines[i] != 'echo @@':
                 cur.append(lines[i]); i += 1
             i += 1
+            if l.startswith('echo @sync'):
+                # a `sync` reconstruction: must replay without any rejection
+                bad = [x for x in cur[1:] if not x.startswith('ok')]
+                cur = ['ok sync'] if not bad else ['SYNC-FAILED ' + ' ; '.join(bad[:3])]
             outs.append(cur)
         res.append(outs)
     return res
@@ -67,7 +94,7 @@ def compare(scripts, procs=None):
     diffs = []
     for si, ((a, io), mo) in enumerate(zip(impl_res, model_res)):
         for li, (x, y) in enumerate(zip(io, mo)):
-            if a[li].startswith('echo'):
+            if a[li].startswith('echo') and not a[li].startswith('echo @sync'):
                 continue
             if x != y:
                 diffs.append((si, li, a[li], x, y))
